@@ -79,3 +79,18 @@ Theorem C04_model_partial : forall cfg w e cmd um, C04_hyp cfg w cmd = true ->
   C04.step_spec cfg w (view_of_model cfg w e cmd um) = true.
 Proof. exact C04_model_any_env. Qed.
 Print Assumptions C04_model_partial.
+
+(* ---- the regenerated constants this property's predicate / model rest on, against literals.
+   Gen/Consts.v is rewritten from the source of /repo on every run, so without this theorem an
+   edit of one of these constants would move model, predicate and code together and nothing
+   would be reported.  Used by: the predicate C04.spec (through the helpers of Cases/C02.v and Model/Layers.v).
+   "frozen" = no manual text gives the value; it is the value of the reviewed tree. *)
+From LC Require Import Gen.Consts Proofs.C04PinsP.
+Local Open Scope string_scope.
+Theorem C04_constants_pinned :
+  (* doc/layercake_directories.adoc, manual page LAYER DIRECTORY: "layerconfig" *)
+  D_LayerconfigFile = bs "layerconfig" /\
+  (* manual page / doc/layercake_layerconfig.adoc: "default_layerconfig.skel" in the base directory *)
+  D_SkeletonLayerconfigFile = bs "default_layerconfig.skel".
+Proof. exact c04_constants_pinned. Qed.
+Print Assumptions C04_constants_pinned.
